@@ -251,6 +251,28 @@ def eval_case(c):
             tr_rep = tr(rep, which)
             if tr_rep.sizes["time"] != 6 or real.relerr(tr_rep.isel(time=slice(3, 6)).values, tr_rep.isel(time=slice(0, 3)).values) > 1e-10:
                 msgs.append(f"{which}: repeated sample coordinates are not transformed sample by sample")
+        # the same per-sample behaviour with normalized=True (scores divided by the FITTED norms, not by the new data's own)
+        if c.get("normalized") and model not in ("POP",):
+            def trn(d):
+                d = d + 0.7j * d.isel(lon=slice(None, None, -1)).assign_coords(lon=d.lon) if cplx else d
+                if not cross:
+                    return m.transform(d, normalized=True)
+                return m.transform(X=d, normalized=True) if which == "X" else m.transform(Y=other(d), normalized=True)
+            try:
+                fulln = trn(new)
+                a, b = new.isel({sd[0]: slice(0, 3)}), new.isel({sd[0]: slice(3, None)})
+                joined = xr.concat([trn(a), trn(b)], sd[0]).transpose(*fulln.dims)
+                if real.relerr(joined.values, fulln.values) > 1e-8:
+                    msgs.append(f"{which}: normalized=True: transform of the concatenation differs from the concatenated transforms")
+                onen = trn(new.isel({sd[0]: slice(0, 1)}))
+                if real.relerr(onen.values, fulln.isel({sd[0]: slice(0, 1)}).values) > 1e-8:
+                    msgs.append(f"{which}: normalized=True: a single new sample is transformed differently on its own")
+                scn = m.scores(normalized=True) if not cross else m.scores(normalized=True)[0 if which == "X" else 1]
+                tsn = trn(sub)
+                if real.relerr(tsn.values, scn.isel({sd[0]: idx}).transpose(*tsn.dims).values) > 1e-6:
+                    msgs.append(f"{which}: normalized=True: transform of a subset of the training samples differs from that subset of the normalized scores")
+            except TypeError:
+                pass            # the model offers no `normalized` switch
         # a single sample
         one = tr(new.isel({sd[0]: slice(0, 1)}), which)
         if real.relerr(one.values, full.isel({sd[0]: slice(0, 1)}).values) > 1e-8:
@@ -274,6 +296,8 @@ def bounded_cases(tier, seed):
             for coords in ("disjoint", "overlapping", "equal"):
                 cases.append(dict(model=model, labels=labels, coords=coords, tier=tier))
     cases.append(dict(model="EOF", labels="plain", coords="equal", nan_train=True, tier=tier, keep=True))
+    for model in ("EOF", "EOFRotator", "MCA", "CPCCA", "MCARotator"):
+        cases.append(dict(model=model, labels="plain", coords="disjoint", normalized=True, tier=tier, keep=True))
     for i, c in enumerate(cases):
         c["seed"] = int(seed) * 1000 + i
     if tier == "quick":
@@ -283,7 +307,7 @@ def bounded_cases(tier, seed):
 
 def run_bounded(res, tier, seed):
     for c in bounded_cases(tier, seed):
-        sig = {k: c.get(k) for k in ("model", "labels", "coords", "nan_train")}
+        sig = {k: c.get(k) for k in ("model", "labels", "coords", "nan_train", "normalized")}
         try:
             ok, detail = eval_case(c)
         except Exception as e:  # noqa: BLE001
@@ -315,7 +339,10 @@ def run(tier, seed):
     from vf.contracts import crosschain
     crosschain.obligations(agg, ("transform", "predict"))      # cross-set public methods: every field through its own chain, in order
     from vf.contracts import crossrot
-    crossrot.obligations(res, agg, ("C05",))      # the real CPCCARotator traced against its callees' contracts
+    crossrot.obligations(res, agg, ("C05", "C04"))      # the real CPCCARotator traced against its callees' contracts
+    # labels of fitted vs new scores through the real chain (shared with C02)
+    from props.C02 import deductive_history
+    deductive_history(res, agg)
     agg.flush()
     run_bounded(res, tier, seed)
     return res
